@@ -131,6 +131,33 @@ impl Item {
             x => x.clone(),
         }
     }
+    /// A tag 2/3 over a byte string of <= 16 bytes whose value lies outside [-2^64, 2^64-1]: the CBOR
+    /// layer re-writes such a value (strips leading zero bytes) or refuses it (negative bignums with
+    /// the top bit of 16 bytes set).  Neither is the crate's doing and no property speaks about it,
+    /// so items containing one are outside the verdict alphabet.
+    pub fn has_quirky_bignum(&self) -> bool {
+        match self {
+            Item::Tag(t, b) => {
+                if *t == 2 || *t == 3 {
+                    if let Item::Bytes(bs) = &**b {
+                        if bs.len() <= 16 {
+                            let mut v: u128 = 0;
+                            for x in bs {
+                                v = (v << 8) | (*x as u128);
+                            }
+                            if v > u64::MAX as u128 {
+                                return true;
+                            }
+                        }
+                    }
+                }
+                b.has_quirky_bignum()
+            }
+            Item::Array(a) => a.iter().any(|x| x.has_quirky_bignum()),
+            Item::Map(m) => m.iter().any(|(k, v)| k.has_quirky_bignum() || v.has_quirky_bignum()),
+            _ => false,
+        }
+    }
     /// Is there a tag 2/3 node anywhere (whose treatment by the CBOR layer is quirky)?
     pub fn has_bignum_tag(&self) -> bool {
         match self {
